@@ -563,6 +563,51 @@ def run(rep: Report, repo: Repo, tier: str) -> None:
                               "exit() on an error path with status 0 / without status")
     rep.floor("C06-R7", 1, "exit calls")
 
+    # ---- R11: the error strategy keeps counting
+    rep.rule("C06-R11", "no recognizer gets an error strategy whose report*/recover methods bypass notifyErrorListeners (the "
+                        "syntax-error counter behind the post-parse gate); ANTLR's own strategies are accepted")
+    REPORTS = {"reportError", "reportNoViableAlternative", "reportInputMismatch", "reportFailedPredicate", "reportUnwantedToken",
+               "reportMissingToken", "recover", "recoverInline", "sync"}
+    n11 = 0
+    for mod in HAND_WRITTEN:
+        for q, f in repo.functions(mod):
+            for node in ast.walk(f):
+                strat = None
+                if isinstance(node, ast.Assign) and any(isinstance(t, ast.Attribute) and t.attr == "_errHandler" for t in node.targets):
+                    strat = node.value
+                elif isinstance(node, ast.Call) and isinstance(node.func, ast.Attribute) and node.func.attr == "setErrorHandler" and node.args:
+                    strat = node.args[0]
+                if strat is None:
+                    continue
+                n11 += 1
+                cname = call_name(strat).split(".")[-1] if isinstance(strat, ast.Call) else norm(strat)
+                if not repo.has_class(cname):
+                    rep.check(cname in ("DefaultErrorStrategy", "BailErrorStrategy"), "C06-R11", f"{mod}:{q}", norm(node)[:70],
+                              f"unknown error strategy {cname}")
+                    continue
+                overridden = [m_ for c_ in repo.mro(cname) if c_.module in HAND_WRITTEN for m_ in c_.methods if m_ in REPORTS]
+                bad = []
+                for c_ in repo.mro(cname):
+                    if c_.module not in HAND_WRITTEN:
+                        continue
+                    for m_, fn_ in c_.methods.items():
+                        if m_ in REPORTS:
+                            body_calls = {call_name(x).split(".")[-1] for x in calls_in(with_super_calls_expanded(repo, c_.name, fn_))}
+                            if "notifyErrorListeners" not in body_calls and not any(
+                                    isinstance(x, ast.Call) and isinstance(x.func, ast.Attribute) and isinstance(x.func.value, ast.Call)
+                                    and norm(x.func.value.func) == "super" for x in ast.walk(fn_)):
+                                bad.append(f"{c_.name}.{m_}")
+                rep.check(not bad, "C06-R11", f"{mod}:{q}", norm(node)[:70],
+                          f"the installed error strategy handles errors in {bad} without notifying the error listeners: the parser's "
+                          f"syntax-error count stays 0 when the enclosing rule recovers, and the partial tree is documented",
+                          witness="a stray identifier directly before a doccomment")
+    rep.ok("C06-R11", "cminx.*", f"{n11} error-strategy installation(s)")
+
+    # ---- R12: a file is parsed on every run (an "up to date" shortcut would hide its errors)
+    from . import fsrules as _fs
+    with rep.isolated():
+        _fs.rule_always_regenerates(rep, repo, "C06-R12")
+
     # ---- R10: nothing discards an exception in flight
     from . import misc_rules
     with rep.isolated():
